@@ -44,6 +44,7 @@ fn short_file(f: &str) -> String {
 
 thread_local! {
     static LAST_PANIC: RefCell<Option<PanicInfo>> = const { RefCell::new(None) };
+    static GUARD_DEPTH: std::cell::Cell<u32> = const { std::cell::Cell::new(0) };
 }
 
 pub fn install_panic_hook() {
@@ -59,6 +60,10 @@ pub fn install_panic_hook() {
         } else {
             "<non-string panic payload>".to_string()
         };
+        if GUARD_DEPTH.with(|d| d.get()) == 0 {
+            // not inside a guarded call of the subject: this is the harness's own failure
+            eprintln!("machinery failure: harness panicked at {file}:{line}: {msg}");
+        }
         LAST_PANIC.with(|p| {
             let mut p = p.borrow_mut();
             // keep the first panic of a guarded region (a double panic would abort anyway)
@@ -72,7 +77,10 @@ pub fn install_panic_hook() {
 /// Runs `f`, converting a panic into `Err(PanicInfo)`.
 pub fn guard<T>(f: impl FnOnce() -> T) -> Result<T, PanicInfo> {
     LAST_PANIC.with(|p| *p.borrow_mut() = None);
-    match catch_unwind(AssertUnwindSafe(f)) {
+    GUARD_DEPTH.with(|d| d.set(d.get() + 1));
+    let r = catch_unwind(AssertUnwindSafe(f));
+    GUARD_DEPTH.with(|d| d.set(d.get().saturating_sub(1)));
+    match r {
         Ok(t) => Ok(t),
         Err(_) => {
             let info = LAST_PANIC.with(|p| p.borrow_mut().take());
